@@ -303,7 +303,7 @@ func init() {
 			return ev
 		}
 		ev["dec"] = okErr(derr)
-		ev["ver"], ev["re"], ev["reenc"], ev["rever"], ev["clr"], ev["clr2a"], ev["clr2b"] = "n/a", []int{}, "n/a", "n/a", []int{}, []int{}, []int{}
+		ev["ver"], ev["re"], ev["reenc"], ev["rever"], ev["clr"], ev["clr2a"], ev["clr2b"], ev["re2"] = "n/a", []int{}, "n/a", "n/a", []int{}, []int{}, []int{}, []int{}
 		ev["spy"] = []any{}
 		if derr != nil {
 			ev["slots"] = slots
